@@ -94,6 +94,12 @@ fn corpus() -> Vec<Edge> {
         edge("unknown-nested-typeshare-list", "#[typeshare]\npub struct A { #[typeshare(foo(bar))] pub a: u8 }\n"),
         edge("unknown-language-ident", "#[typeshare]\npub struct A { #[typeshare(cobol(type = \"X\"))] pub a: u8 }\n"),
         edge("unknown-language-on-variant-field", "#[typeshare]\n#[serde(tag = \"t\", content = \"c\")]\npub enum E { V { #[typeshare(fortran(readonly))] a: u8 } }\n"),
+        // tokens that are no identifier inside a language's decorator list: a string literal, a stray comma, a number
+        edge("decorator-list-string-literal", "#[typeshare]\npub struct A { #[typeshare(typescript(\"readonly\"))] pub a: u8 }\n"),
+        edge("decorator-list-leading-comma", "#[typeshare]\npub struct A { #[typeshare(typescript(, readonly))] pub a: u8 }\n"),
+        edge("decorator-list-double-comma", "#[typeshare]\npub struct A { #[typeshare(typescript(readonly,, x))] pub a: u8 }\n"),
+        edge("decorator-list-number", "#[typeshare]\n#[serde(tag = \"t\", content = \"c\")]\npub enum E { V { #[typeshare(kotlin(5))] a: u8 } }\n"),
+        edge("decorator-list-nested-group", "#[typeshare]\npub struct A { #[typeshare(swift((readonly)))] pub a: u8 }\n"),
         edge("typeshare-list-path-arg", "#[typeshare]\npub struct A { #[typeshare(a::b(c))] pub a: u8 }\n"),
         edge("malformed-language-args", "#[typeshare]\npub struct A { #[typeshare(typescript(type = 5))] pub a: u8 }\n"),
         edge("non-ascii-field-rename-all", "#[typeshare]\n#[serde(rename_all = \"camelCase\")]\npub struct A { pub é_x: u8, pub x_é: u8 }\n"),
